@@ -1,5 +1,7 @@
 """C04 - each computation runs at most once, and only on demand."""
-from ..core import Prop
+import json
+
+from ..core import Prop, Suite
 from ..suites_hist import Histories
 
 
@@ -15,9 +17,81 @@ class Mixed(Histories):
     checks = ('runs',)
 
 
+class DataKinds(Suite):
+    """every persisting data class, also with an empty result: computed once, then requested again by the same
+    object, a new chain and a new process - run executes once per storage location (runtime check on the real
+    data classes; the histories above use the JSON and in-memory classes)"""
+    name = 'data_classes_at_most_once'
+    model = ''
+
+    def gen(self, rng, tier):
+        from .c05 import KINDS
+        return [dict(kind=k, empty=e) for k in KINDS for e in (False, True)
+                if not (e and k in ('pandas', 'dir', 'continues'))]
+
+    def run_impl(self, case):
+        import os, shutil, tempfile
+        from .c05 import make_module, the_chain, in_child, describe_result
+        kind = case['kind']
+        tmp = tempfile.mkdtemp(prefix='tcverif-c04-')
+        old = os.getcwd()
+        try:
+            os.chdir(tmp)
+            state = dict(run=1, runs=0, fault=None, bad=None, empty=case['empty'])
+            m = make_module(kind, state)
+
+            def first():
+                ch = the_chain(m, 'data')
+                t = ch['c05:victim']
+                v1 = describe_result(kind, t.value)
+                v2 = describe_result(kind, t.value)
+                t2 = the_chain(m, 'data')['c05:victim']
+                has = bool(t2.has_data)
+                v3 = describe_result(kind, t2.value)
+                return dict(values=[v1, v2, v3], has=has, runs=state['runs'])
+
+            def later():
+                t = the_chain(m, 'data')['c05:victim']
+                has = bool(t.has_data)
+                return dict(values=[describe_result(kind, t.value)], has=has, runs=state['runs'])
+            a = in_child(first)
+            state['runs'] = 0
+            b = in_child(later)
+            return dict(first=a, later=b)
+        finally:
+            os.chdir(old)
+            import sys
+            sys.modules.pop('tcv_dyn_c05', None)
+            shutil.rmtree(tmp, ignore_errors=True)
+
+    def oracle(self, case, obs):
+        if 'unexpected_exception' in obs:
+            return f'unexpected exception {obs["unexpected_exception"]}: {obs["text"]}'
+        a, b = obs['first'], obs['later']
+        for tag, r in (('computing process', a), ('later process', b)):
+            if 'child_error' in r:
+                return f'{case}: {tag} failed: {r["child_error"]}'
+        if a['runs'] != 1:
+            return f'{case}: run executed {a["runs"]} times for three requests (same object twice, then a new chain) in one process'
+        if not a['has'] or not b['has']:
+            return f'{case}: has_data is False although the result was computed and stored'
+        if b['runs'] != 0:
+            return f'{case}: a later process ran the task again ({b["runs"]} runs) although its result is stored'
+        vals = a['values'] + b['values']
+        if any(json.dumps(v, sort_keys=True, default=str) != json.dumps(vals[0], sort_keys=True, default=str) for v in vals):
+            return f'{case}: the requests do not yield one value: {json.dumps(vals, default=str)[:300]}'
+        return None
+
+    def nontrivial(self, case, obs):
+        return True
+
+    def key(self, case):
+        return repr(case)
+
+
 class C04(Prop):
     pid = 'C04'
-    suites = [Plain(), Mixed()]
+    suites = [Plain(), Mixed(), DataKinds()]
     assumptions = ['one-shot data classes (JSON, in-memory); resumable ContinuesData is re-run by design until finished()']
 
 
